@@ -266,6 +266,10 @@ fn extract<'tcx>(tcx: TyCtxt<'tcx>, krate: &str, is_test: bool) -> J {
             _ => {}
         }
     }
+    // ---- layout grid for the dense matrix: DenseMatrix<T, C> for T in prims+local repr(u8) enums, C in a fixed list
+    if let Some(grid) = layout_grid(tcx, &mut layouts, &mut seen_layout) {
+        top.set("layout_grid", grid);
+    }
     top.set("adts", adts);
     top.set("impls", J::Arr(impls));
     top.set("layouts", J::Arr(layouts));
@@ -288,6 +292,111 @@ fn extract<'tcx>(tcx: TyCtxt<'tcx>, krate: &str, is_test: bool) -> J {
     }
     top.set("traits", traits);
     top
+}
+
+/// Build typenum unsigned `n` from the UInt/UTerm/B0/B1 ADTs found inside `sample`.
+fn typenum_parts<'tcx>(
+    tcx: TyCtxt<'tcx>,
+    sample: Ty<'tcx>,
+    out: &mut std::collections::HashMap<String, rustc_middle::ty::AdtDef<'tcx>>,
+) {
+    if let ty::Adt(adt, args) = sample.kind() {
+        let name = tcx.item_name(adt.did()).to_string();
+        out.entry(name).or_insert(*adt);
+        for t in args.types() {
+            typenum_parts(tcx, t, out);
+        }
+    }
+}
+
+fn mk_typenum<'tcx>(
+    tcx: TyCtxt<'tcx>,
+    parts: &std::collections::HashMap<String, rustc_middle::ty::AdtDef<'tcx>>,
+    n: u64,
+) -> Option<Ty<'tcx>> {
+    let uterm = Ty::new_adt(tcx, *parts.get("UTerm")?, tcx.mk_args(&[]));
+    if n == 0 {
+        return Some(uterm);
+    }
+    let hi = mk_typenum(tcx, parts, n / 2)?;
+    let b = if n % 2 == 1 { parts.get("B1")? } else { parts.get("B0")? };
+    let bt = Ty::new_adt(tcx, *b, tcx.mk_args(&[]));
+    Some(Ty::new_adt(tcx, *parts.get("UInt")?, tcx.mk_args(&[hi.into(), bt.into()])))
+}
+
+fn layout_grid<'tcx>(
+    tcx: TyCtxt<'tcx>,
+    layouts: &mut Vec<J>,
+    seen: &mut std::collections::HashSet<String>,
+) -> Option<J> {
+    // the dense matrix type of this crate (public name `DenseMatrix`, two type parameters)
+    let mut dm = None;
+    let mut sample = None;
+    let mut enums = Vec::new();
+    for ldid in tcx.hir_crate_items(()).definitions() {
+        let did = ldid.to_def_id();
+        match tcx.def_kind(did) {
+            DefKind::Struct => {
+                if tcx.item_name(did).as_str() == "DenseMatrix" && tcx.generics_of(did).own_params.len() == 2 {
+                    dm = Some(tcx.adt_def(did));
+                }
+            }
+            DefKind::Enum => {
+                let adt = tcx.adt_def(did);
+                if adt.repr().int.is_some() && adt.variants().iter().all(|v| v.fields.is_empty()) {
+                    enums.push(adt);
+                }
+            }
+            DefKind::Impl { .. } => {
+                for it in tcx.associated_items(did).in_definition_order() {
+                    if it.is_type() && sample.is_none() {
+                        let t = tcx.type_of(it.def_id).instantiate_identity().skip_norm_wip();
+                        if let ty::Adt(a, _) = t.kind() {
+                            if tcx.item_name(a.did()).as_str() == "UInt" {
+                                sample = Some(t);
+                            }
+                        }
+                    }
+                }
+            }
+            _ => {}
+        }
+    }
+    let dm = dm?;
+    let mut parts = std::collections::HashMap::new();
+    typenum_parts(tcx, sample?, &mut parts);
+    let mut elems: Vec<(String, Ty<'tcx>)> = vec![
+        ("u8".into(), tcx.types.u8),
+        ("u32".into(), tcx.types.u32),
+        ("f32".into(), tcx.types.f32),
+        ("u64".into(), tcx.types.u64),
+        ("i64".into(), tcx.types.i64),
+        ("f64".into(), tcx.types.f64),
+    ];
+    for e in enums {
+        elems.push((tcx.def_path_str(e.did()), Ty::new_adt(tcx, e, tcx.mk_args(&[]))));
+    }
+    let mut grid = Vec::new();
+    for (tn, t) in &elems {
+        for c in [1u64, 2, 4, 5, 7, 8, 16, 21, 32, 33, 43, 64] {
+            let cty = mk_typenum(tcx, &parts, c)?;
+            let m = Ty::new_adt(tcx, dm, tcx.mk_args(&[(*t).into(), cty.into()]));
+            let before = layouts.len();
+            dump_layout(tcx, m, Some(format!("grid:{}:{}", tn, c)), 0, layouts, seen);
+            // annotate the new entries with (elem, C)
+            let mut g = J::obj();
+            g.set("elem", J::Str(tn.clone()));
+            g.set("c", J::Int(c as i128));
+            g.set("first", J::Int(before as i128));
+            g.set("count", J::Int((layouts.len() - before) as i128));
+            let env = TypingEnv::fully_monomorphized();
+            if let Ok(l) = tcx.layout_of(env.as_query_input(*t)) {
+                g.set("elem_size", J::Int(l.size.bytes() as i128));
+            }
+            grid.push(g);
+        }
+    }
+    Some(J::Arr(grid))
 }
 
 fn has_attr_named(tcx: TyCtxt<'_>, did: DefId, name: &str) -> bool {
@@ -379,7 +488,7 @@ fn descend_layout<'tcx>(
             if let Some(t) = args.types().next() {
                 dump_layout(tcx, t, None, depth, out, seen);
             }
-        } else if adt.did().krate != rustc_hir::def_id::LOCAL_CRATE || true {
+        } else if adt.did().is_local() {
             if adt.is_struct() && !p.starts_with("core::") && !p.starts_with("alloc::") && !p.starts_with("std::") {
                 dump_layout(tcx, ty, None, depth, out, seen);
             }
